@@ -728,8 +728,11 @@ func genNextThorough(ctx *core.Ctx, g *nextGen, tabs []*zoneTab) {
 				for _, d := range deltas {
 					t := clampT(z.Tr[i].Start + d)
 					res := evalNext(ci.sp, ci.b, z, t, 0, "")
+					if res.Skipped {
+						continue
+					}
 					screened++
-					if !optEq(res.Obs, res.Ref) {
+					if res.Hung || !optEq(res.Obs, res.Ref) {
 						diff = append(diff, t)
 					}
 				}
@@ -814,6 +817,9 @@ func genEvery(ctx *core.Ctx) {
 }
 
 func c04Gen(ctx *core.Ctx) {
+	if ctx.Thorough {
+		hangBudget = 4
+	}
 	genParse(ctx)
 	genEvery(ctx)
 	genNext(ctx)
